@@ -7,9 +7,16 @@ package announce
 // on the real structure at small capacities and compared with a reference model.
 
 import (
+	"context"
 	"fmt"
+	"math/rand"
 	"os"
 	"testing"
+	"time"
+
+	"github.com/ipfs/go-cid"
+	"github.com/libp2p/go-libp2p/core/peer"
+	"github.com/multiformats/go-multihash"
 )
 
 type verifC09Model struct {
@@ -105,3 +112,88 @@ func verifC09Run(t *testing.T, extra int) {
 	}
 	fmt.Fprintf(os.Stdout, "CASES %d\n", cases)
 }
+
+// ---------------------------------------------------------------------------
+// Second bounded stand-in for C09, at the receiver (labelled bounded; never counted as proved): long
+// pseudo-random histories of direct announcements and un-cache operations over 80 CIDs - more than
+// the 64 entries of the duplicate filter - on a real receiver, compared step by step with a
+// reference model (most-recently-seen list of 64, a duplicate moves its entry to the front). An
+// announcement must be delivered exactly when the model says its CID is not in the filter. The
+// generator favours re-announcing recent CIDs and the oldest entries, where recency refresh and
+// eviction order matter. Fixed seeds: the histories are the same on every run.
+
+func verifC09History(t *testing.T, seeds, steps int) {
+	const alphabet = 80
+	var cids []cid.Cid
+	for i := 0; i < alphabet; i++ {
+		mh, _ := multihash.Sum([]byte(fmt.Sprintf("c09-%d", i)), multihash.SHA2_256, -1)
+		cids = append(cids, cid.NewCidV1(cid.Raw, mh))
+	}
+	pid, _ := peer.Decode("12D3KooWHf7cahZvAVB36SGaVXc7fiVDoJdRJq42zDRcN2s2512h")
+	cases := 0
+	for seed := 0; seed < seeds; seed++ {
+		rng := rand.New(rand.NewSource(int64(seed)))
+		r, err := NewReceiver(nil, "")
+		if err != nil {
+			t.Fatal(err)
+		}
+		model := &verifC09Model{max: 64}
+		index := map[string]int{}
+		for i, c := range cids {
+			index[c.String()] = i
+		}
+		pick := func() int {
+			switch k := rng.Intn(10); {
+			case k < 3 && len(model.order) > 0: // one of the most recent
+				return index[model.order[rng.Intn(min(4, len(model.order)))]]
+			case k < 6 && len(model.order) > 0: // one of the oldest
+				n := len(model.order)
+				return index[model.order[n-1-rng.Intn(min(4, n))]]
+			default:
+				return rng.Intn(alphabet)
+			}
+		}
+		for step := 0; step < steps; step++ {
+			i := pick()
+			what := fmt.Sprintf("seed %d step %d cid #%d", seed, step, i)
+			if rng.Intn(12) == 0 {
+				r.UncacheCid(cids[i])
+				model.remove(cids[i].String())
+				continue
+			}
+			dup := model.update(cids[i].String())
+			ctx, cancel := context.WithTimeout(context.Background(), 10*time.Second)
+			if err := r.Direct(ctx, cids[i], peer.AddrInfo{ID: pid}); err != nil {
+				t.Fatalf("%s: Direct: %v", what, err)
+			}
+			cancel()
+			if dup {
+				// nothing may be delivered: checked by a short wait only every so often (a wrongly
+				// delivered duplicate also shows up as a wrong CID at the next delivery)
+				if step%16 == 0 {
+					ctx, cancel := context.WithTimeout(context.Background(), 5*time.Millisecond)
+					if a, err := r.Next(ctx); err == nil {
+						t.Fatalf("%s: a duplicate (CID among the 64 most recently seen) was delivered: %s", what, a.Cid)
+					}
+					cancel()
+				}
+				continue
+			}
+			ctx, cancel = context.WithTimeout(context.Background(), 10*time.Second)
+			a, err := r.Next(ctx)
+			cancel()
+			if err != nil {
+				t.Fatalf("%s: not delivered although its CID is not among the 64 most recently seen: %v", what, err)
+			}
+			if a.Cid != cids[i] || a.PeerID != pid {
+				t.Fatalf("%s: delivered %s instead (an earlier duplicate got through?)", what, a.Cid)
+			}
+		}
+		r.Close()
+		cases++
+	}
+	fmt.Fprintf(os.Stdout, "CASES %d\n", cases)
+}
+
+func TestVerifC09ReceiverHistories(t *testing.T)     { verifC09History(t, 8, 1500) }
+func TestVerifC09ReceiverHistoriesDeep(t *testing.T) { verifC09History(t, 64, 4000) }
